@@ -970,3 +970,24 @@ Fixpoint br_check (s : brstate) (steps : list (brop * sobs)) : bool :=
   | (o, ob) :: r => let '(s', res) := br_step s o in sobs_eqb (br_view s' res) ob && br_check s' r
   end.
 Definition ok_barrier (c : Z * list (brop * sobs)) : bool := br_check (br_init (fst c)) (snd c).
+
+(* ================================================================== *)
+(** * One case type for the correspondence check (a check run evaluates every
+      kind of case with one Coq invocation per shard) *)
+Inductive c09case :=
+| CaseResource (c : Z * list (rop * robs))
+| CaseMutex (c : list (mop * sobs))
+| CaseSemaphore (c : Z * list (sop * sobs))
+| CaseRWLock (c : option Z * list (rwop * sobs))
+| CaseBarrier (c : Z * list (brop * sobs))
+| CasePool (c : Z * Z * Z * list (pop * pobs))
+| CaseBulkhead (c : Z * Z * option Z * list (bop * bobs))
+| CaseLimiter (c : ckind * Z * Z * option Z * list (cop * (Z * Z * Z * Z)))
+| CaseOracleOnly.                  (* components without a model: implementation-side oracle only *)
+
+Definition ok_case (c : c09case) : bool :=
+  match c with
+  | CaseResource x => ok_resource x | CaseMutex x => ok_mutex x | CaseSemaphore x => ok_semaphore x
+  | CaseRWLock x => ok_rwlock x | CaseBarrier x => ok_barrier x | CasePool x => ok_pool x
+  | CaseBulkhead x => ok_bulkhead x | CaseLimiter x => ok_concurrency x | CaseOracleOnly => true
+  end.
